@@ -59,7 +59,7 @@ ASSUMPTIONS = [
 ]
 FLOORS = {
     'pool:3': 0.2,
-    'result:missing': 0.1,
+    'result:missing': 0.07,
     'result:not-first': 0.1,
     'cover:via-nontable': 0.1,
     'cover:tables-only': 0.1,
@@ -359,9 +359,28 @@ def make_spec(pair):
     return gen_spec(stmt, pdata)
 
 
+def make_history_spec(triple):
+    """A pool case preceded by 1-2 other statements matched on the *same* importer (their outcome is not judged here -
+    every statement is judged when it is the main one of some case): the selection must not depend on earlier matches."""
+    sdata, pdata, wdata = triple
+    spec = make_spec((sdata, pdata))
+    n = 1 + wdata[0] % 2
+    size = S.STATEMENT_BYTES
+    spec['warmup'] = [
+        S.gen_statement(S.ByteChooser(_stream(wdata + bytes([k]), size)), 3, 3, _PROFILE) for k in range(n)
+    ]
+    return spec
+
+
 pool_strategy = st.tuples(
     st.binary(min_size=S.STATEMENT_BYTES, max_size=S.STATEMENT_BYTES), st.binary(min_size=160, max_size=160)
 ).map(make_spec)
+
+history_strategy = st.tuples(
+    st.binary(min_size=S.STATEMENT_BYTES, max_size=S.STATEMENT_BYTES),
+    st.binary(min_size=160, max_size=160),
+    st.binary(min_size=16, max_size=16),
+).map(make_history_spec)
 
 
 # ---- execution -----------------------------------------------------------------------------------------------------------
@@ -428,6 +447,9 @@ def check_pool(ctx, spec):
             classes.append('cover:tables-only')
     nontrivial = (winner is not None and (winner != order[0] or nontable)) or (winner is None and near)
     summary = {'stmt': stmt, 'feeds': [{k: f[k] for k in ('ident', 'prio', 'adv')} for f in feeds]}
+    if spec.get('warmup'):
+        classes.append('history')
+        summary['warmup'] = spec['warmup']
     ctx.case(summary, nontrivial=nontrivial, classes=classes)
     if collision_ambiguous(spec):
         ctx.mask('c08-colliding-literal-sources')
@@ -451,6 +473,14 @@ def check_pool(ctx, spec):
     trig = ['covered-only-via-nontable-source'] if nontable else []
     try:
         importer = io.Importer(*pool)
+        for warm in spec.get('warmup', []):
+            try:
+                importer.match(build.build_source(warm))
+                ctx.klass('history:earlier-matched')
+            except forml.MissingError:
+                ctx.klass('history:earlier-missing')
+            except Exception as exc:  # pylint: disable=broad-except
+                ctx.mask(f'warmup|{type(exc).__name__}@{ctxmod.forml_frame(exc)}')
         try:
             got = importer.match(statement)
         except forml.MissingError:
@@ -512,7 +542,10 @@ def check_pool(ctx, spec):
 
 
 def campaigns(ctx):
-    return [Campaign('pool', pool_strategy, check_pool, 2500, 8000)]
+    return [
+        Campaign('pool', pool_strategy, check_pool, 1700, 6000),
+        Campaign('history', history_strategy, check_pool, 800, 3000),
+    ]
 
 
 LEVEL_TEXT = (
